@@ -108,11 +108,14 @@ def gen_op(rng, type_changing=False):
         lambda: {"op": "p_reset_index"},
         lambda: {"op": "p_rename", "pick": rng.randint(0, 9)},
         lambda: {"op": "rewrap"},
+        lambda: {"op": "fork_edit", "how": rng.choice(["copy", "rows", "take"]), "pick": rng.randint(0, 9),
+                 "kind": rng.choice(VAL_KINDS)},
     ]
     r = rng.random()
     if type_changing:
         pool = [facade[0], facade[1], direct[0], direct[4], direct[6], pandas_ops[0], pandas_ops[6], pandas_ops[7],
-                pandas_ops[8], facade[2], facade[3], pandas_ops[13], direct[3], direct[2], direct[0], facade[3]]
+                pandas_ops[8], facade[2], facade[3], pandas_ops[13], direct[3], direct[2], direct[0], facade[3],
+                pandas_ops[14]]
         return rng.choice(pool)()
     if r < 0.3:
         return rng.choice(facade)()
@@ -192,6 +195,12 @@ class History:
             kw["units"] = list(c["units"])
         try:
             self.t = Table(df, **kw)
+            # display formats on some numeric columns (they must stay with their column in the writers)
+            from pdtable.table_metadata import ColumnFormat
+
+            for j, (nme, k) in enumerate(zip(c["names"], c["kinds"])):
+                if k == "float" and (c["vseed"] + j) % 3 != 2 and c["nrows"] > 0 and c["strict"]:
+                    self.t.column_metadata[nme].display_format = ColumnFormat([".1f", ".3e", "08.2f"][(c["vseed"] + j) % 3])
             self.init_obs = observe(self.t.df, False)
         except Exception as e:
             self.t = None
@@ -237,6 +246,12 @@ class History:
         if df.empty or not t.metadata.strict_types:
             return
         names = [str(c) for c in df.columns]
+        # a numeric display format left on a column that has since been retyped makes str.format raise:
+        # the harness's own doing, not a statement about units - such formats are dropped before writing
+        for c in df.columns:
+            cm = t.column_metadata[c]
+            if cm.display_format is not None and df[c].dtype.kind not in "fiu":
+                cm.display_format = None
         rec = {"names": names, "units": list(t.units), "dtypes": [str(d.kind) for d in df.dtypes]}
         try:
             rec["by_name"] = [t[c].unit for c in df.columns]
@@ -249,6 +264,7 @@ class History:
                 write_csv(t, s)
                 lines = s.getvalue().split("\n")
                 rec["csv"] = [lines[2].split(";"), lines[3].split(";")] if not t.metadata.transposed else None
+                rec["format_fail"] = self._format_check(t, df)
                 try:
                     j = table_to_json_data(t)
                     rec["json"] = [[k, v["unit"]] for k, v in j["columns"].items()]
@@ -259,6 +275,46 @@ class History:
         except Exception as e:
             rec["writer_exc"] = f"{type(e).__name__}: {e}"[:200]
         self.checks.append(rec)
+
+    def _format_check(self, t, df):
+        """CSV in both orientations: every numeric cell is rendered with its own column's display format."""
+        import math
+
+        from pdtable import write_csv
+
+        fmts = {}
+        for c in df.columns:
+            f = t.column_metadata[c].display_format
+            fmts[str(c)] = f.specifier if f else None
+        if not any(fmts.values()):
+            return None
+        was = t.metadata.transposed
+        out = {}
+        try:
+            for tr in (False, True):
+                t.metadata.transposed = tr
+                s = io.StringIO()
+                write_csv(t, s)
+                lines = s.getvalue().split("\n")
+                n, m = len(df.columns), len(df)
+                if tr:
+                    out[tr] = [lines[2 + j].split(";")[2:2 + m] for j in range(n)]
+                else:
+                    rows = [lines[4 + i].split(";")[:n] for i in range(m)]
+                    out[tr] = [[rows[i][j] for i in range(m)] for j in range(n)]
+        finally:
+            t.metadata.transposed = was
+        for j, c in enumerate(df.columns):
+            spec = fmts[str(c)]
+            if spec is None or df[c].dtype.kind != "f":
+                continue
+            for i, v in enumerate(df[c].tolist()):
+                want = "-" if (isinstance(v, float) and math.isnan(v)) else format(v, spec)
+                for tr in (False, True):
+                    if out[tr][j][i] != want:
+                        return (f"column {str(c)!r} (format {spec}) row {i} written as {out[tr][j][i]!r} in the "
+                                f"{'transposed' if tr else 'row-wise'} layout, expected {want!r}")
+        return None
 
     def _apply(self, op):
         from pdtable import Table
@@ -367,6 +423,37 @@ class History:
                 df[c] = vals
             st, empty = df_state(df)
             self._record(["OData", st, empty], False)
+            return
+        if name == "fork_edit":
+            # derive a frame from this one, retype a column of the DERIVED table through the facade, and
+            # come back to this table: by C05 the source is untouched, so the model sees two consultations
+            cols = list(df.columns)
+            if n == 0 or not cols:
+                raise Skip()
+            try:
+                t.units
+                self._record(["OConsult"], False)
+            except Exception as e:
+                self._record(["OConsult"], True, type(e).__name__)
+                return
+            saved_log = list(FIN_LOG)
+            try:
+                with warnings.catch_warnings():
+                    warnings.simplefilter("ignore")
+                    work = {"copy": lambda: df.copy(), "rows": lambda: df[[True] * n],
+                            "take": lambda: df.take(list(range(n)))}[op["how"]]()
+                    c = cols[op["pick"] % len(cols)]
+                    Table(work)[c] = values_for(op["kind"], len(work), rng)
+            except Exception:
+                pass
+            del FIN_LOG[:]
+            FIN_LOG.extend(saved_log)
+            try:
+                t.units
+                self._record(["OConsult"], False)
+                self._consult_checks()
+            except Exception as e:
+                self._record(["OConsult"], True, type(e).__name__)
             return
         if name == "rewrap":
             try:
